@@ -7,7 +7,7 @@
    The concrete executable model compared with the code on every run is Model/Index.v. *)
 From Coq Require Import List NArith ZArith Bool Permutation.
 From BE Require Import Model.Scan Model.Build Model.Cursor Proofs.ScanProof Proofs.BuildProof Proofs.Glue Proofs.CursorProof Proofs.Refine Proofs.ConcreteScan.
-From BE Require Model.GoVal Model.Parsers Model.Index Gen.IdsGen Proofs.RoaringProof Proofs.IndexBuildInv Proofs.IndexCorrect Proofs.NonVacuous Model.Spec Proofs.SpecBridge Proofs.HoldersBuildInv Proofs.IndexCorrectHolders Proofs.SpecBridgeHolders Proofs.IndexCorrectPolicy Proofs.SpecBridgeHoldersPolicy.
+From BE Require Model.GoVal Model.Parsers Model.Index Gen.IdsGen Proofs.RoaringProof Proofs.IndexBuildInv Proofs.IndexCorrect Proofs.NonVacuous Model.Spec Proofs.SpecBridge Proofs.HoldersBuildInv Proofs.IndexCorrectHolders Proofs.SpecBridgeHolders Proofs.IndexCorrectPolicy Proofs.SpecBridgeHoldersPolicy Proofs.CursorGenProof Proofs.RetrieveKGenProof.
 Import ListNotations.
 Local Open Scope N_scope.
 
@@ -195,6 +195,22 @@ Example C01_spec_nonvacuous :
   Spec.sat_hits [] NonVacuous.ex_parsers Index.PolError Spec.pl_docok NonVacuous.ex_docs NonVacuous.ex_q = Some [(1, (0, 1))]%Z.
 Proof. split; [exact NonVacuous.ex_docs_good | split; [exact NonVacuous.ex_q_good | exact NonVacuous.ex_spec_says]]. Qed.
 
+(* the tie to the source, as a theorem: KGroupsBEIndex.retrieveK TRANSLATED from be_indexer_kgroups.go on every run
+   (Gen/CursorGen.v: the scan loop of one size group over a slice of opaque field cursors -- read through
+   GetCurEntryID, advanced through SkipTo -- with the id codecs of IdsGen.v, the collector as the list of its Add
+   calls and FieldCursors.Sort as translated; statements that only log are dropped).  Whenever the model's loop
+   (Index.retrieve_k, the loop the theorems above are about) finishes with the collector calls `out`, the translated
+   function returns exactly those calls on the same cursors: no index out of range, the stated fuel suffices.
+   (SkipTo is the total reading of Cursor.fcursor_skip_to, RetrieveKGenProof.skipT.) *)
+Theorem C01_translated_retrieveK_is_model : forall need cs res out,
+  (1 <= need)%nat -> (Z.of_nat (length cs) < 2^60)%Z ->
+  BE.Model.Index.retrieve_k need cs res = Some out ->
+  exists cs', BE.Proofs.CursorGenProof.G.KGroupsBEIndex_retrieveK fcursor fc_current BE.Proofs.RetrieveKGenProof.skipT
+                (S (BE.Model.Index.fc_total cs) + 2 * length cs) res cs (Z.of_nat need) =
+              BE.Proofs.CursorGenProof.G.Ret (cs', out).
+Proof. exact BE.Proofs.RetrieveKGenProof.retrieveK_translated_is_model. Qed.
+
+Print Assumptions C01_translated_retrieveK_is_model.
 Print Assumptions C01_kgroups_streams_exact.
 Print Assumptions C01_kgroups_index_exact.
 Print Assumptions C01_kgroups_documents_exact.
